@@ -33,6 +33,9 @@ pub struct ReqSpec {
 #[derive(Serialize, Deserialize, Debug, Clone)]
 pub struct Case {
     pub h2: bool,
+    /// HTTP/3 over the real QUIC listener (then `h2` only says "several requests per session")
+    #[serde(default)]
+    pub h3: bool,
     pub clients: Vec<(String, String)>,
     /// "none" | "registry" | "with-sni"
     pub authenticator: String,
@@ -231,6 +234,7 @@ fn case_strategy(h2: bool, max_reqs: usize) -> BoxedStrategy<Case> {
         })
         .prop_map(move |(clients, authenticator, sni_creds, reqs)| Case {
             h2,
+            h3: false,
             clients,
             authenticator,
             sni_creds,
@@ -280,6 +284,40 @@ pub fn execute(case: &Case) -> (Vec<Obs>, Vec<Event>) {
         },
         ..CoreSpec::default()
     };
+    if case.h3 {
+        let spec = CoreSpec { quic: true, ..spec };
+        return aio::block_on_real(async move {
+            let net = match crate::engine::networld::NetWorld::start(&spec).await {
+                Ok(n) => n,
+                Err(e) => return (vec![Obs { error: Some(format!("harness: {}", e)), ..Default::default() }; case.reqs.len()], vec![]),
+            };
+            let scripted = Scripted::new(|m| match &m.destination {
+                DestView::HostName(_, 80) | DestView::HostName(_, 8080) => Outcome::Refused,
+                _ => Outcome::Echo,
+            });
+            let _guard = scripted.install(&net.world);
+            let reqs: Vec<Req> = case.reqs.iter().enumerate().map(|(i, r)| render(i, r).0).collect();
+            let sni = match case.sni_creds.as_ref().map(|(l, _)| l.clone()) {
+                Some(l) => format!("{}.main.x", l),
+                None => "main.x".to_string(),
+            };
+            let debug = std::env::var("VERIF_DEBUG").is_ok();
+            if debug {
+                crate::engine::logcap::start();
+            }
+            let obs = crate::props::tunnelreq::run_h3(&net, &sni, &reqs, Duration::from_millis(1500)).await;
+            tokio::time::sleep(Duration::from_millis(20)).await;
+            if debug {
+                for l in crate::engine::logcap::stop() {
+                    if !l.contains("quiche") {
+                        eprintln!("{}", &l[..l.len().min(300)]);
+                    }
+                }
+                eprintln!("obs: {:?}", obs);
+            }
+            (obs, scripted.events())
+        });
+    }
     aio::block_on_paused(async move {
         let world = spec.build().expect("core");
         // plain-HTTP requests are refused by the destination so that they end quickly
@@ -335,7 +373,7 @@ pub fn judge(case: &Case, obs: &[Obs], events: &[Event]) -> Verdict {
             i,
             r.kind,
             r.auth_class,
-            if case.h2 { "h2" } else { "h1" },
+            if case.h3 { "h3" } else if case.h2 { "h2" } else { "h1" },
             case.authenticator,
             case.sni_creds
         );
@@ -450,12 +488,15 @@ pub fn judge(case: &Case, obs: &[Obs], events: &[Event]) -> Verdict {
 
 pub struct GateSuite {
     pub h2: bool,
+    pub h3: bool,
 }
 
 impl Suite for GateSuite {
     type Case = Case;
     fn name(&self) -> &'static str {
-        if self.h2 {
+        if self.h3 {
+            "gate-h3-sequences"
+        } else if self.h2 {
             "gate-h2-sequences"
         } else {
             "gate-h1"
@@ -464,14 +505,30 @@ impl Suite for GateSuite {
     fn rule(&self) -> String {
         format!(
             "{}: authenticator in {{none, registry over 1-3 generated (user, password) pairs incl. colons / non-ASCII, registry + SNI label}}, connection SNI credentials in {{absent, accepted, rejected}}, request kind in {{CONNECT host:port, CONNECT ip:port, _check, _udp2, _icmp, absolute-URI GET, POST}}, Proxy-Authorization in {{absent, valid pair, wrong user / password / swapped / truncated / no colon / empty password, valid token under Bearer / basic / BASIC / two spaces / no space / Digest / bare, non-canonical base64, malformed base64, empty, non-UTF-8, random text, duplicate headers}}; real Tunnel + HttpDownstream + codec in memory with a scripted forwarder that records every call; oracle = independent decision function (authorised iff header == \"Basic \" + base64(user:pass) of a configured pair, or SNI credentials accepted): unauthorised => 407 + Basic challenge + zero forwarder calls, authorised => not 407 and the matching forwarder call, every request judged alone; non-trivial = session with both an authorised and an unauthorised request, or a header from the malformed / other-scheme classes",
-            if self.h2 { "sequences of 1-6 requests multiplexed on one HTTP/2 session, issued together" } else { "one request per HTTP/1.1 session" }
+            if self.h3 {
+                "sequences of 1-4 requests multiplexed on one HTTP/3 session of a quiche client against the real QUIC listener (Core::listen on loopback, real time; the scripted forwarder is installed on that endpoint)"
+            } else if self.h2 {
+                "sequences of 1-6 requests multiplexed on one HTTP/2 session, issued together"
+            } else {
+                "one request per HTTP/1.1 session"
+            }
         )
     }
     fn strategy(&self, _: Tier) -> BoxedStrategy<Case> {
+        if self.h3 {
+            return case_strategy(true, 4)
+                .prop_map(|mut c| {
+                    c.h3 = true;
+                    c
+                })
+                .boxed();
+        }
         case_strategy(self.h2, if self.h2 { 6 } else { 1 })
     }
     fn cases(&self, tier: Tier) -> u64 {
-        if self.h2 {
+        if self.h3 {
+            tier.pick(480, 12_000)
+        } else if self.h2 {
             tier.pick(60_000, 1_000_000)
         } else {
             tier.pick(100_000, 2_000_000)
@@ -529,17 +586,19 @@ impl Suite for GateSuite {
 
 pub fn run(ctx: &mut Ctx) {
     super::replay_corpus(ctx, replay);
-    ctx.run_suite(&GateSuite { h2: false });
-    ctx.run_suite(&GateSuite { h2: true });
+    ctx.run_suite(&GateSuite { h2: false, h3: false });
+    ctx.run_suite(&GateSuite { h2: true, h3: false });
+    ctx.run_suite(&GateSuite { h2: true, h3: true });
     ctx.assume("don't-care (either outcome accepted): non-canonical base64 of a valid pair, a wrong header on an SNI-authenticated connection, duplicate headers of mixed validity, everything when no authenticator is configured");
-    ctx.assume("HTTP/3 is not driven in memory; Tunnel and HttpDownstream above the codec are shared with HTTP/1.1 and HTTP/2");
+    ctx.assume("HTTP/3 runs in real time against the real QUIC listener with 1.5 s to answer; a request without a response in that time counts as unanswered");
     ctx.assume("header values the h2 client library refuses to send (e.g. control bytes) are skipped on HTTP/2");
 }
 
 pub fn replay(ctx: &mut Ctx, suite: &str, case: &Value) -> bool {
     match suite {
-        "gate-h1" => ctx.replay_suite(&GateSuite { h2: false }, case),
-        "gate-h2-sequences" => ctx.replay_suite(&GateSuite { h2: true }, case),
+        "gate-h1" => ctx.replay_suite(&GateSuite { h2: false, h3: false }, case),
+        "gate-h2-sequences" => ctx.replay_suite(&GateSuite { h2: true, h3: false }, case),
+        "gate-h3-sequences" => ctx.replay_suite(&GateSuite { h2: true, h3: true }, case),
         _ => false,
     }
 }
